@@ -180,7 +180,7 @@ def bounded(tier, seed, repo_root):
     for _ in range(cli_n):
         a, b = rnd.choice(pairs)
         jobs.append((a, b, rnd.choice(gt.OPTION_COMBOS), True))
-    res = pmap(_check_pair, jobs, repo_root, job_timeout=60, on_timeout=_pair_timeout)
+    res = pmap(_check_pair, jobs, repo_root, job_timeout=60, on_timeout=_pair_timeout, skip_result=(True, []))
     failures = [f for _, fs in res for f in fs]
     n_unequal = sum(1 for eq, _ in res if not eq)
     return [{
